@@ -374,9 +374,13 @@ def _real_runs(worker_counts=(1, 2, 4), orders=("natural", "reversed", "rotated"
                 if order != "natural":
                     mpp.Pool.imap_unordered = forced
                 try:
-                    cat = yaw.Catalog(tmp + "/ref", max_workers=nw)
-                    hist = HistData.from_catalog(cat, cfg, max_workers=nw)
-                    cf = yaw.crosscorrelate(cfg, cat, unk, ref_rand=rand, max_workers=nw)[0]
+                    try:
+                        cat = yaw.Catalog(tmp + "/ref", max_workers=nw)
+                        hist = HistData.from_catalog(cat, cfg, max_workers=nw)
+                        cf = yaw.crosscorrelate(cfg, cat, unk, ref_rand=rand, max_workers=nw)[0]
+                    except Exception as ex:  # noqa: BLE001 - a run that fails only for some worker count / order is a difference
+                        out.append((f"workers={nw},order={order}", dict(failed=f"{type(ex).__name__}: {ex}")))
+                        continue
                     r = dict(ids=list(cat.keys()), nrec=list(cat.get_num_records()), sumw=list(cat.get_sum_weights()),
                              centers=cat.get_centers().data.tobytes(), hist=hist.data.tobytes(), hist_samples=hist.samples.tobytes(),
                              dd=cf.dd.counts.counts.tobytes(), rd=cf.rd.counts.counts.tobytes(),
@@ -401,13 +405,13 @@ def bounded(opts):
     ref_label, ref = runs[0]
     viol = []
     for label, r in runs[1:]:
-        diff = [k for k in ref if r[k] != ref[k]]
+        diff = [k for k in ref if r.get(k) != ref[k]] + ([f"run failed: {r['failed']}"] if "failed" in r else [])
         if diff and len(viol) < 5:
             viol.append(dict(id="bounded:worker_count_and_arrival_order", case=label, differs_in=diff, reference=ref_label))
     return dict(kind="bounded", bound="one catalog triple (8 patches, 510 objects with weights over 6 decades, one patch 6x larger), 3 redshift bins; "
                 "worker counts and forced arrival orders: " + ", ".join(lab for lab, _ in runs),
                 evaluations=len(runs) * len(ref), distinct_nontrivial=max(len(runs) - 1, 0), violations=viol,
-                samples=[dict(run=lab, ids=r["ids"], nrec=r["nrec"]) for lab, r in runs[:2]], wall_s=round(time.time() - t0, 2),
+                samples=[dict(run=lab, ids=r.get("ids"), nrec=r.get("nrec")) for lab, r in runs[:2]], wall_s=round(time.time() - t0, 2),
                 note="bit-wise comparison of loaded metadata, histogram (+samples), DD/RD counts and weight sums against the "
                      "sequential run; labelled bounded, not counted as proved")
 
@@ -415,7 +419,19 @@ def bounded(opts):
 def replay_witness(unit_name, case, ob):
     runs = _real_runs()
     ref_label, ref = runs[0]
-    bad = [(label, [k for k in ref if r[k] != ref[k]]) for label, r in runs[1:]]
+    bad = [(label, [k for k in ref if r.get(k) != ref[k]] + ([r["failed"]] if "failed" in r else [])) for label, r in runs[1:]]
     bad = [b for b in bad if b[1]]
     return {"reproduced": bool(bad), "differences": bad[:6], "reference": ref_label,
             "note": "real pipeline with real worker pools; arrival orders forced by re-ordering Pool.imap_unordered results"}
+
+
+
+# the accessors of a loaded catalog report patch i at position i whatever the order in which the patches arrived (C12 unit on the
+# same functions): together with load_patches above, iteration order does not depend on the completion order
+def _register_shared():
+    from . import C12 as _C12
+    unit(P, "Catalog.accessors", fuc=["yaw.catalog.catalog:Catalog.__iter__", "yaw.catalog.catalog:Catalog.get_centers", "yaw.catalog.catalog:Catalog.get_radii",
+                                     "yaw.catalog.catalog:Catalog.get_num_records", "yaw.catalog.catalog:Catalog.get_sum_weights"], kind="bounded")(_C12.u_accessors)
+
+
+_register_shared()
